@@ -185,6 +185,9 @@ def run_case(g, idx, res, workdir, with_design):
             cfg["design"]["max_boreholes"] = int(g.integers(2, 200))
         if g.random() < 0.4:
             cfg["design"]["continue_if_design_unmet"] = bool(g.random() < 0.7)
+        if g.random() < 0.5:
+            # design fluid temperature other than the API default of 20 degC
+            cfg["fluid"]["temperature"] = float(g.choice([5.0, 10.0, 12.5, 30.0, 45.0, 20.000001]))
         if g.random() < 0.3:
             cfg["grout"]["rho_cp"] = float(g.choice([1.0, 3901000.0, 1e9, 2.5e6 + 1 / 3]))
             cfg["soil"]["undisturbed_temp"] = float(g.choice([-2.5, 0.0, 18.3, 1e-7, 33.333333333333336]))
